@@ -57,7 +57,18 @@ Inductive case :=
 | CPub (ins : list inp) (weight floor budget maxrate h0 deadline relay : Z)
        (ans start : option Z)
        (ivs : list Z) (ierr : Z) (ipub : option otx) (irate ipos ifee : Z)
-       (evs : list pev).
+       (evs : list pev)
+| CSet (ins : list binp) (utxos : list Z) (need0 : bool) (e : Z)
+       (after : list binp) (need1 : bool) (budget : Z).
+
+Definition binp_eqb (a b : binp) : bool :=
+  (b_value a =? b_value b) && (b_budget a =? b_budget b) && Bool.eqb (b_req a) (b_req b).
+Fixpoint binps_eqb (a b : list binp) : bool :=
+  match a, b with
+  | [], [] => true
+  | x :: a', y :: b' => binp_eqb x y && binps_eqb a' b'
+  | _, _ => false
+  end.
 
 Fixpoint check_obs (f : ff) (obs : list (Z * Z)) (i : Z) : list Z :=
   match obs with
@@ -124,6 +135,13 @@ Definition check_case (c : case) : list Z :=
                   else match verdict_of v with VAccept => 0 | VFee => 9 | VOther => 8 end in
       if (code =? e) && has_tx && (tx_fee t =? fee) && tx_matches t tx then [] else [0]
     end
+  | CSet ins utxos need0 e after need1 budget =>
+    let '(l', st) := if need_wallet_input 0 ins then add_wallet_inputs 0 ins utxos
+                     else (ins, TopSatisfied) in
+    let code := match st with TopNotEnoughInputs => 5 | _ => 0 end in
+    if Bool.eqb (need_wallet_input 0 ins) need0 && (code =? e) && binps_eqb l' after
+       && Bool.eqb (need_wallet_input 0 l') need1 && (set_budget 0 l' =? budget)
+    then [] else [0]
   | CPub ins weight floor budget maxrate h0 deadline relay ans start ivs ierr ipub irate ipos ifee evs =>
     match initial_broadcast64 ins weight floor budget maxrate h0 deadline relay
                               (ans_of ans) start (map verdict_of ivs) with
